@@ -146,7 +146,7 @@ def checkStart (p : Pool) (isCoro : Bool) : Option Err :=
 def newReq (kind : ReqKind) (stars : Nat) (group : String) (sp : SpawnSpec) (remaining : Nat) (items : List Item) (nc : Nat) : Req :=
   { kind := kind, stars := stars, group := group, wspec := sp.ws, endCb := sp.endCb, cancelCb := sp.cancelCb, badCall := sp.badCall,
     hooks := sp.hooks, remaining := remaining, items := items, mapSem := { value := .fin nc, waiters := [] },
-    acquired := false, pulled := 0, created := 0, skipped := 0, frame := .notStarted, mustCancel := false,
+    nc := nc, acquired := false, pulled := 0, created := 0, skipped := 0, frame := .notStarted, mustCancel := false,
     sched := true, outcome := none, inRunning := true, inCancelled := false, doneCbs := [] }
 
 def addGroupIfMissing (gs : List (String × List Nat)) (g : String) : List (String × List Nat) :=
@@ -521,10 +521,10 @@ def mapStartTask (p : Pool) (m : Nat) : Pool × Bool :=
 /-- one pull from the argument iterator (user code) -/
 def pullItem (p : Pool) (m : Nat) (rest : List Item) : Pool :=
   let r := p.reqs[m]?.getD default
-  ((p.modReq m fun x => { x with items := rest, pulled := x.pulled + 1, acquired := false }).logEv (.pull m r.pulled)).runHooks m r.hooks.pull
+  ((p.modReq m fun x => { x with items := rest, pulled := x.pulled + 1, acquired := false, frame := .running }).logEv (.pull m r.pulled)).runHooks m r.hooks.pull
 
 def takeMapSlot (p : Pool) (m : Nat) : Pool :=
-  p.modReq m fun x => { x with acquired := true, mapSem := { x.mapSem with value := x.mapSem.value.dec } }
+  p.modReq m fun x => { x with acquired := true, frame := .running, mapSem := { x.mapSem with value := x.mapSem.value.dec } }
 
 /-- `_arg_consumer`'s loop from the next pull until it suspends or ends -/
 def mapLoop (m : Nat) : List Item → Pool → Pool
@@ -557,6 +557,8 @@ def roomWaitCancelled (p : Pool) (m : Nat) (r : Req) (st : Option WaitSt) : Pool
 
 /-- `acquire()` returned: `if self._value > 0: self._wake_up_next()`, then the task is created -/
 def roomGranted (p : Pool) (m : Nat) (r : Req) : Pool :=
+  -- the spawner is no longer suspended in `acquire()`: it runs on (ghost frame, read by nobody)
+  let p := p.modReq m fun x => { x with frame := .running }
   let p := if !p.sem.value.isZero then
              let s := p.sem.wakeNext; ({ p with sem := s.1 } : Pool).schedOpt s.2
            else p
@@ -571,7 +573,7 @@ def wakeWaitRoom (p : Pool) (m : Nat) (r : Req) : Pool :=
   else p
 
 def mapSemGranted (p : Pool) (m : Nat) (r : Req) : Pool :=
-  let q := (p.modReq m fun x => { x with acquired := true }).mapStartTask m
+  let q := (p.modReq m fun x => { x with acquired := true, frame := .running }).mapStartTask m
   if q.2 then mapLoop m r.items q.1 else q.1
 
 def wakeWaitMapSem (p : Pool) (m : Nat) (r : Req) : Pool :=
@@ -590,6 +592,7 @@ def stepMeta (p : Pool) (m : Nat) : Pool :=
     let p := p.modReq m fun x => { x with sched := false }
     match r.frame with
     | .done => p
+    | .running => p
     | .notStarted => p.stepMetaNotStarted m r
     | .waitRoom => p.wakeWaitRoom m r
     | .waitMapSem => p.wakeWaitMapSem m r
